@@ -115,6 +115,14 @@ func checkC11(c *Ctx) {
 	c.tbeErrFlow(clauseTerm)
 	// lock discipline of the hash map
 	c.hashMapLocks("LOCKSET")
+	c.Decides("RLOCK-WRITE: a method that takes only the read lock of its receiver stores nothing reached from that receiver; COPYLOCK: no method or function takes a lock-holding struct (sync.Mutex / RWMutex / WaitGroup inside) by value")
+	nr, _ := c.rlockWrite("RLOCK-WRITE", c.AllFuncs())
+	c.Extra["read_locked_methods"] = nr
+	c.Floor("RLOCK-WRITE", 1)
+	nl, _ := c.copyLock("COPYLOCK")
+	if nl < 5 {
+		c.Undecided("COPYLOCK", "scan-count", 0, fmt.Sprintf("only %d methods on lock-holding types seen", nl))
+	}
 }
 
 // workerErrFlow: in the worker closures of pkg.fn, the per-tree errors reach the record sent on
